@@ -75,6 +75,17 @@ def rule_chain(ctx):
     SYMS = ("call", "Problem::symbols", (SELF,))
     sorted_ok = lambda t: isinstance(t, tuple) and t[:1] == ("upd",) and t[2] in ("sort_unstable", "sort") and t[3] == () and \
         leaves.strip_acc(t[1]) in (("call", "FromIterator::from_iter", (SYMS,)), ("call", "Iterator::collect", (SYMS,)), SYMS)
+    _plain_sorted = sorted_ok
+
+    def sorted_ok(t):
+        # `xs.into_iter().sorted_unstable()` / `.sorted()` (itertools): the same elements in ascending order, as an iterator
+        t = leaves.strip_acc(t) if isinstance(t, tuple) else t
+        if isinstance(t, tuple) and t[:1] == ("call",) and t[1] in ("Itertools::sorted_unstable", "Itertools::sorted") and len(t[2]) == 1:
+            src = t[2][0]
+            while isinstance(src, tuple) and src[:1] == ("call",) and src[1].split("::")[-1] in ("iter", "into_iter", "cloned", "copied") and len(src[2]) == 1:
+                src = src[2][0]
+            return src == SYMS or _plain_sorted(src) or src in (("call", "FromIterator::from_iter", (SYMS,)), ("call", "Iterator::collect", (SYMS,)))
+        return _plain_sorted(t)
     nest, mapping = leaves.loop_nest(loops)
     args = tuple(leaves.norm(leaves.replace(a, mapping)) for a in item[2])
     pair_src = nest[0] if len(nest) == 1 else None
